@@ -415,6 +415,11 @@ func OpenWith(path string, vLogs []appendable.Appendable, txLog, cLog appendable
 		return nil, fmt.Errorf("%w: can not read '%s' from metadata", ErrCorruptedCLog, "MaxValueLen")
 	}
 
+	// the same bounds Options.Validate enforces when the store is created
+	if fileSize <= 0 || fileSize >= MaxFileSize || maxKeyLen <= 0 || maxKeyLen > MaxKeyLen || maxTxEntries <= 0 || maxValueLen <= 0 {
+		return nil, fmt.Errorf("%w: invalid limits in metadata", ErrCorruptedCLog)
+	}
+
 	// These limits are persisted to metadata at store creation and cannot be changed
 	// on subsequent opens. Warn the caller when the supplied option differs from the
 	// stored value so that silent ignore doesn't surprise users (see issue #1864).
